@@ -251,6 +251,20 @@ func (c *Cluster) AddMember() (*Member, error) {
 	return c.startMember(cfg)
 }
 
+// Rejoin starts a new member under the address of a stopped one (new birthdate, same name).
+func (c *Cluster) Rejoin(old *Member) (*Member, error) {
+	cfg := c.newConfig()
+	cfg.BindPort = old.Cfg.BindPort
+	cfg.MemberlistConfig.BindPort = old.Cfg.MemberlistConfig.BindPort
+	cfg.MemberlistConfig.AdvertisePort = old.Cfg.MemberlistConfig.BindPort
+	c.mu.Lock()
+	for _, m := range c.Live() {
+		cfg.Peers = append(cfg.Peers, net.JoinHostPort("127.0.0.1", strconv.Itoa(m.Cfg.MemberlistConfig.BindPort)))
+	}
+	c.mu.Unlock()
+	return c.startMember(cfg)
+}
+
 func (c *Cluster) startMember(cfg *config.Config) (*Member, error) {
 	started := make(chan struct{})
 	var once sync.Once
@@ -410,19 +424,41 @@ func (c *Cluster) stableOnce(requireBalanced bool) (string, bool) {
 	return first, true
 }
 
-// WaitStable waits until every live member reports the same member list and routing table, no
-// departed member is listed, and (requireBalanced) every partition has exactly one primary owner
-// and min(R, N)-1 backup owners - on two consecutive polls.  In manual mode it keeps calling Sync.
+// holdings is a signature of which member holds how many entries for which partition.
+func (c *Cluster) holdings() string {
+	var sb strings.Builder
+	for _, m := range c.Live() {
+		for p := uint64(0); p < c.Opts.Partitions; p++ {
+			fmt.Fprintf(&sb, "%d/%d:%d,%d;", m.Index, p, m.V.Primary.PartitionByID(p).Length(), m.V.Backup.PartitionByID(p).Length())
+		}
+	}
+	return sb.String()
+}
+
+// WaitStable waits until every live member reports the same member list and routing table and no
+// departed member is listed.  requireBalanced: additionally every partition has exactly one primary
+// owner and min(R, N)-1 backup owners (every hand-over completed) on two consecutive polls.  Otherwise
+// a fixpoint is awaited: three consecutive push+balance rounds change neither the tables nor which
+// member holds how much data.  In manual mode it keeps calling Sync.
 func (c *Cluster) WaitStable(timeout time.Duration, requireBalanced bool) error {
 	deadline := time.Now().Add(timeout)
 	prev, why := "", ""
+	same := 0
 	for time.Now().Before(deadline) {
 		if c.Opts.Manual {
 			c.Sync()
 		}
 		s, ok := c.stableOnce(requireBalanced)
+		if ok && !requireBalanced {
+			s += "#" + c.holdings()
+		}
 		if ok && s == prev {
-			return nil
+			same++
+			if requireBalanced || same >= 3 {
+				return nil
+			}
+		} else {
+			same = 0
 		}
 		if ok {
 			prev = s
